@@ -83,7 +83,7 @@ impl Prop for C13 {
         }
     }
     fn required_probes(&self, _tier: Tier) -> Vec<&'static str> {
-        vec!["txs_ge_100_in_block", "outputs_ge_500_in_tx", "threads_64", "stale_tmp_longer_than_output", "same_name_rerun", "index_files_rewritten", "index_has_non_active_records", "same_length_stale_result"]
+        vec!["txs_ge_100_in_block", "outputs_ge_500_in_tx", "threads_64", "stale_tmp_longer_than_output", "same_name_rerun", "index_files_rewritten", "index_has_non_active_records", "same_length_stale_result", "more_workers_than_txs_in_a_block_of_128_plus", "empty_range_run_with_stale_tmp"]
     }
     fn explore(&self, item: u64, rng: &mut Rng, _tier: Tier, h: &mut Harness) -> Result<(), String> {
         let coin = COINS[(item % 8) as usize];
@@ -127,6 +127,12 @@ impl Prop for C13 {
             }
             for _ in 0..rng.usize(4, 8) {
                 combos.push((*rng.pick(&THREADS[1..]), *rng.pick(&MODES[1..])));
+            }
+            // more workers than the largest block has transactions (an empty share per worker must be harmless)
+            if rng.coin() {
+                let big = scn.chain.iter().map(|b| b.txs.len()).max().unwrap_or(1);
+                let t_hi = if big >= 100 { big + rng.usize(1, 60) } else { *rng.pick(&[129usize, 200, 300]) };
+                combos.push((t_hi, *rng.pick(&MODES)));
             }
             for (t, mode) in combos {
                 let mut r = RunSpec::new(cb);
@@ -201,6 +207,16 @@ impl Prop for C13 {
             scn.runs.push(r.clone());
             prev = Some(r);
         }
+        // a run whose range is empty (start above the tip): with stale *.tmp files of its tables in the folder
+        if rng.chance(1, 4) {
+            let mut r = RunSpec::new(*rng.pick(&["csvdump", "csvdump", "unspentcsvdump", "balances"]));
+            r.start = Some(t + rng.range(1, 5));
+            r.threads = 2;
+            r.fresh_dump = false;
+            r.fresh_data = false;
+            let at = rng.usize(1, scn.runs.len());
+            scn.runs.insert(at, r);
+        }
         scn.runs[0].fresh_data = true;
         // an earlier result with the same NAME and the same LENGTH as what the first run will write, other content
         if rng.chance(1, 2) {
@@ -258,6 +274,9 @@ impl Prop for C13 {
             for (i, (r, o)) in scn.runs.iter().zip(outs.iter()).enumerate() {
                 if r.threads == 64 {
                     st.probe("threads_64");
+                }
+                if r.threads > 128 && scn.chain.iter().any(|b| b.txs.len() >= 128 && b.txs.len() < r.threads) {
+                    st.probe("more_workers_than_txs_in_a_block_of_128_plus");
                 }
                 if !o.exit.ok() {
                     v.push(viol("C13/schedule/run-failed", format!("run {} threads={} delay={:?}: exit {:?}: {}", i, r.threads, r.plan.delay, o.exit, super::c01::tail(&o.stderr_str()))));
@@ -320,6 +339,28 @@ impl Prop for C13 {
             }
             if i > 0 && scn.runs[..i].iter().any(|p| p.callback == r.callback && p.start == r.start && p.end == r.end) {
                 st.probe("same_name_rerun");
+            }
+            if r.start.map(|x| x > m.tip()).unwrap_or(false) {
+                // empty range: whatever was in the folder, the files this run leaves under final names hold
+                // what a run in an empty folder leaves — no row (header line for unspent/balances)
+                let had_stale = stems.iter().any(|s| o.dump_before.contains_key(&format!("{}.csv.tmp", s)));
+                if had_stale {
+                    st.probe("empty_range_run_with_stale_tmp");
+                }
+                for n in new_or_changed(o) {
+                    if !is_final_name(n) || !stems.iter().any(|s| n.starts_with(&format!("{}-", s))) {
+                        continue;
+                    }
+                    let body = &o.dump[n];
+                    let ok = body.is_empty() || body.as_slice() == b"txid;indexOut;height;value;address\n" || body.as_slice() == b"address;balance\n";
+                    if !ok {
+                        v.push(viol("C13/history/result-differs-from-model", format!("run {} ({}, empty range from {:?}, tip {}): {} holds {} bytes that no run over an empty range writes", i, r.callback, r.start, m.tip(), n, body.len())));
+                    }
+                }
+                if o.data_digest_before != o.data_digest_after {
+                    v.push(viol("C13/immutability/blk-or-xor-modified", format!("run {} ({}) modified blk*.dat or xor.dat", i, r.callback)));
+                }
+                continue;
             }
             // the run's own result equals the model
             for x in compare_with_model("C13/history", m, r, o, &CmpOpts { addr: true, decimals: false }, st) {
